@@ -27,7 +27,7 @@ LEVEL_TEXT = ('History independence is a reachability question over the decoder\
               'modes (-a, -a -r, -l) are compared with per-file decodes.')
 LEVEL_NOTE = ('depth bound 2 (quick) / 4 (thorough) beyond which only fingerprint-distinct states are extended; state kept '
               'outside the repository\'s modules (e.g. in the interpreter) is covered only by the un-merged depth-2 pass')
-RULE = ('events = 33 PELs (built-in JSON, fixture parser ok / raising / ImportError in call / None / absent module, callouts '
+RULE = ('events = 37 PELs (with the fixture message registry loaded; built-in JSON, fixture parser ok / raising / ImportError in call / None / absent module, callouts '
         'module ok / raising, SRC parser ok / raising, two-target LP, PEL truncated mid-SRC / mid-LP, BMC PEL with shipped '
         'parsers, I/O-drawer PEL, hw-diags PEL) x plug-ins {on, off}; BFS over fingerprints from each first event; plus all '
         'event sequences of length 2 (thorough 3) without merging; plus 3 directory runs. Non-trivial: a transition taken from a non-initial '
@@ -127,6 +127,14 @@ def pel_specs():
         {'t': 'UD', 'comp': 0x2000, 'sub': 3, 'payload': b'  two\nlines \xff\n'.hex()},
         {'t': 'UD', 'comp': 0x2000, 'sub': 1, 'payload': b'{"v": 1e999}'.hex()},
         {'t': 'LP', 'name': 'lpar5', 'targets': [1]}]}
+    # reference codes with an entry in the message registry (error details, hex-word descriptions), twice the same reason code
+    regw = list(pelgen.SRC_DEFAULT_WORDS)
+    specs['reg_2001_a'] = {'creator': 'O', 'eid': 0x50000020, 'sections': [{'t': 'PS', 'ascii': 'BD8D2001'.ljust(32), 'words': regw}]}
+    specs['reg_2001_b'] = {'creator': 'B', 'eid': 0x50000021, 'sections': [
+        {'t': 'PS', 'ascii': 'BD602001'.ljust(32), 'words': [w ^ 0x01010101 for w in regw]}, {'t': 'MT'}]}
+    specs['reg_3003_power'] = {'creator': 'O', 'eid': 0x50000022, 'sections': [{'t': 'PS', 'ascii': '11003003'.ljust(32), 'words': regw}]}
+    specs['reg_2003'] = {'creator': 'O', 'eid': 0x50000023, 'sections': [{'t': 'PS', 'ascii': 'BD8D2003'.ljust(32), 'words': regw},
+                                                                     {'t': 'SS', 'ascii': 'BD8D2001'.ljust(32), 'words': regw}]}
     raw = collections.OrderedDict()
     for k, s in specs.items():
         raw[k] = pelgen.encode_pel(pelgen.pel_from_spec(s))
@@ -160,8 +168,9 @@ def reset(hard=False):
     """Back to the state of freshly imported modules.  The first call (and hard=True) really purges and re-imports; later
     calls restore the captured module-level state in place, and the fingerprint must then equal the pristine one."""
     if hard or 'snap' not in _pristine:
-        impl.fresh(False)
-        impl._current['registry'] = False
+        # with the fixture message registry and component-id tables: they are module-level data shared by every decode
+        impl.fresh(True)
+        impl._current['registry'] = True
         imphook.install(serve_all=False, behaviour=BEHAVIOUR)
         _pristine['snap'] = statefp.Snapshot()
         _pristine['fp'] = statefp.fingerprint()
